@@ -341,6 +341,11 @@ def run (s : PState) : List Op → PState
 
 def init (cfg : Cfg) : PState := { cfg := cfg }
 
+/-- the value of `k` in the newest generation whose flush function has returned and that holds `k`
+    (`hist` is newest first; the generation still being flushed is not counted) -/
+def newestFlushed (s : PState) (k : Bytes) : Option Bytes :=
+  ((if s.running then s.hist.tail else s.hist).map (·.2)).findSome? (·.get k)
+
 /-- what the caller sees: the results of the ops, in order -/
 def runOuts (s : PState) : List Op → List Out
   | [] => []
